@@ -15,7 +15,7 @@ URIS = ["https://eml.ecoinformatics.org/eml-2.2.0", "http://www.xml-cml.org/sche
 EML_NAMES = ["eml", "dataset", "title", "creator", "para", "markup", "literalLayout", "objectName", "attributeName", "section", "value"]
 # XML 1.0 characters except CR; control characters are illegal
 TEXT_CHARS = ["a", "b", "c", "Z", "0", "9", " ", " ", " ", "\t", "\n", "\xa0", "<", ">", "&", "\"", "'", "é", "ß", "Ж", "湖", "\U0001F600",
-              "-", ".", ":", ";", "/", "]", "[", "=", "%", "#", "{", "}", "]]>", "&amp;", " ", "​", "�", "\x85", " "]
+              "-", ".", ":", ";", "/", "]", "[", "=", "%", "#", "{", "}", "]]>", "&amp;", "e\u0301", "\u212b", "\u1100\u1161", "\ufb01", " ", "​", "�", "\x85", " "]
 ATTR_CHARS = [c for c in TEXT_CHARS if c not in ("\t", "\n", "\x85", " ")]
 
 
